@@ -1,1010 +1,12 @@
-//! Group `conv`: C07 (integer conversions), C08 (byte encodings), C18 (floating point).
-#![allow(clippy::all)]
-
-use num_bigint::BigUint;
-use num_traits::{One, Zero};
-use ruint::{Uint, UintTryFrom, UintTryTo};
-use vharness::*;
-
-// type codes
-const UT: [(&str, u32); 7] = [("bool", 1), ("u8", 8), ("u16", 16), ("u32", 32), ("u64", 64), ("u128", 128), ("usize", 64)];
-const IT: [(&str, u32); 6] = [("i8", 8), ("i16", 16), ("i32", 32), ("i64", 64), ("i128", 128), ("isize", 64)];
-
-macro_rules! u_ty {
-    ($t:expr, $T:ident => $e:expr) => {
-        match $t {
-            0 => { type $T = bool; IntoV::into_v($e) }
-            1 => { type $T = u8; IntoV::into_v($e) }
-            2 => { type $T = u16; IntoV::into_v($e) }
-            3 => { type $T = u32; IntoV::into_v($e) }
-            4 => { type $T = u64; IntoV::into_v($e) }
-            5 => { type $T = u128; IntoV::into_v($e) }
-            6 => { type $T = usize; IntoV::into_v($e) }
-            _ => panic!("harness: bad unsigned type code"),
-        }
-    };
-}
-macro_rules! i_ty {
-    ($t:expr, $T:ident => $e:expr) => {
-        match $t {
-            0 => { type $T = i8; IntoV::into_v($e) }
-            1 => { type $T = i16; IntoV::into_v($e) }
-            2 => { type $T = i32; IntoV::into_v($e) }
-            3 => { type $T = i64; IntoV::into_v($e) }
-            4 => { type $T = i128; IntoV::into_v($e) }
-            5 => { type $T = isize; IntoV::into_v($e) }
-            _ => panic!("harness: bad signed type code"),
-        }
-    };
-}
-
-fn arr<const N: usize>(v: &[u8]) -> [u8; N] {
-    let mut a = [0u8; N];
-    a.copy_from_slice(v);
-    a
-}
-fn arr64<const N: usize>(v: &[u64]) -> [u64; N] {
-    let mut a = [0u64; N];
-    a.copy_from_slice(v);
-    a
-}
-
-define_ops! {
-    // ---- C07: primitive -> Uint
-    try_from_u = |t: N, v: W128| u_ty!(t, T => Uint::<B, L>::try_from(<T as FromU128>::fu(v)));
-    from_u = |t: N, v: W128| u_ty!(t, T => Uint::<B, L>::from(<T as FromU128>::fu(v)));
-    wrapping_from_u = |t: N, v: W128| u_ty!(t, T => Uint::<B, L>::wrapping_from(<T as FromU128>::fu(v)));
-    saturating_from_u = |t: N, v: W128| u_ty!(t, T => Uint::<B, L>::saturating_from(<T as FromU128>::fu(v)));
-    uint_try_from_u = |t: N, v: W128| u_ty!(t, T => <Uint<B, L> as UintTryFrom<T>>::uint_try_from(<T as FromU128>::fu(v)));
-    try_from_i = |t: N, v: I| i_ty!(t, T => Uint::<B, L>::try_from(<T as FromI128>::fi(v)));
-    from_i = |t: N, v: I| i_ty!(t, T => Uint::<B, L>::from(<T as FromI128>::fi(v)));
-    wrapping_from_i = |t: N, v: I| i_ty!(t, T => Uint::<B, L>::wrapping_from(<T as FromI128>::fi(v)));
-    saturating_from_i = |t: N, v: I| i_ty!(t, T => Uint::<B, L>::saturating_from(<T as FromI128>::fi(v)));
-    // ---- C07: Uint -> primitive
-    try_to_u = |a: U, t: N| u_ty!(t, T => <T as TryFrom<Uint<B, L>>>::try_from(a));
-    try_to_u_ref = |a: U, t: N| u_ty!(t, T => <T as TryFrom<&Uint<B, L>>>::try_from(&a));
-    to_u = |a: U, t: N| u_ty!(t, T => a.to::<T>());
-    wrapping_to_u = |a: U, t: N| u_ty!(t, T => a.wrapping_to::<T>());
-    saturating_to_u = |a: U, t: N| u_ty!(t, T => a.saturating_to::<T>());
-    uint_try_to_u = |a: U, t: N| u_ty!(t, T => <Uint<B, L> as UintTryTo<T>>::uint_try_to(&a));
-    try_to_i = |a: U, t: N| i_ty!(t, T => <T as TryFrom<Uint<B, L>>>::try_from(a));
-    try_to_i_ref = |a: U, t: N| i_ty!(t, T => <T as TryFrom<&Uint<B, L>>>::try_from(&a));
-    to_i = |a: U, t: N| i_ty!(t, T => a.to::<T>());
-    wrapping_to_i = |a: U, t: N| i_ty!(t, T => a.wrapping_to::<T>());
-    saturating_to_i = |a: U, t: N| i_ty!(t, T => a.saturating_to::<T>());
-    // ---- C07: limb slices
-    from_limbs = |s: LS| Uint::<B, L>::from_limbs(arr64::<L>(&s));
-    from_limbs_slice = |s: LS| Uint::<B, L>::from_limbs_slice(&s);
-    checked_from_limbs_slice = |s: LS| Uint::<B, L>::checked_from_limbs_slice(&s);
-    wrapping_from_limbs_slice = |s: LS| Uint::<B, L>::wrapping_from_limbs_slice(&s);
-    overflowing_from_limbs_slice = |s: LS| Uint::<B, L>::overflowing_from_limbs_slice(&s);
-    saturating_from_limbs_slice = |s: LS| Uint::<B, L>::saturating_from_limbs_slice(&s);
-    // ---- C08: encoders
-    as_le_slice = |a: U| a.as_le_slice().to_vec();
-    as_le_bytes = |a: U| a.as_le_bytes().to_vec();
-    as_le_bytes_trimmed = |a: U| a.as_le_bytes_trimmed().to_vec();
-    to_le_bytes = |a: U| a.to_le_bytes::<BY>();
-    to_be_bytes = |a: U| a.to_be_bytes::<BY>();
-    to_le_bytes_vec = |a: U| a.to_le_bytes_vec();
-    to_be_bytes_vec = |a: U| a.to_be_bytes_vec();
-    to_le_bytes_trimmed_vec = |a: U| a.to_le_bytes_trimmed_vec();
-    to_be_bytes_trimmed_vec = |a: U| a.to_be_bytes_trimmed_vec();
-    copy_le_bytes_to = |a: U, n: N| { let mut buf = vec![0xa5u8; n]; let r = a.copy_le_bytes_to(&mut buf); (r, buf) };
-    copy_be_bytes_to = |a: U, n: N| { let mut buf = vec![0xa5u8; n]; let r = a.copy_be_bytes_to(&mut buf); (r, buf) };
-    checked_copy_le_bytes_to = |a: U, n: N| { let mut buf = vec![0xa5u8; n]; let r = a.checked_copy_le_bytes_to(&mut buf); (r, buf) };
-    checked_copy_be_bytes_to = |a: U, n: N| { let mut buf = vec![0xa5u8; n]; let r = a.checked_copy_be_bytes_to(&mut buf); (r, buf) };
-    // ---- C08: decoders
-    from_be_bytes = |s: BY| Uint::<B, L>::from_be_bytes::<BY>(arr::<BY>(&s));
-    from_le_bytes = |s: BY| Uint::<B, L>::from_le_bytes::<BY>(arr::<BY>(&s));
-    from_be_slice = |s: BY| Uint::<B, L>::from_be_slice(&s);
-    from_le_slice = |s: BY| Uint::<B, L>::from_le_slice(&s);
-    try_from_be_slice = |s: BY| Uint::<B, L>::try_from_be_slice(&s);
-    try_from_le_slice = |s: BY| Uint::<B, L>::try_from_le_slice(&s);
-    // ---- C18
-    f64_from = |a: U| f64::from(a);
-    f64_from_ref = |a: U| f64::from(&a);
-    f32_from = |a: U| f32::from(a);
-    f32_from_ref = |a: U| f32::from(&a);
-    try_from_f64 = |f: F64| Uint::<B, L>::try_from(f);
-    from_f64 = |f: F64| Uint::<B, L>::from(f);
-    wrapping_from_f64 = |f: F64| Uint::<B, L>::wrapping_from(f);
-    saturating_from_f64 = |f: F64| Uint::<B, L>::saturating_from(f);
-    try_from_f32 = |f: F32| Uint::<B, L>::try_from(f);
-    from_f32 = |f: F32| Uint::<B, L>::from(f);
-    wrapping_from_f32 = |f: F32| Uint::<B, L>::wrapping_from(f);
-    saturating_from_f32 = |f: F32| Uint::<B, L>::saturating_from(f);
-}
-
-dispatch_widths!(dispatch, call, Op;
-    0, 1, 2, 3, 4, 5, 6, 7, 8, 9, 10, 11, 12, 13, 14, 15, 16, 17, 24, 25, 31, 32, 33, 53, 54,
+//! Group `conv` at the standard width grid (body: src/groups/conv.rs).
+#![allow(clippy::all, dead_code, unused)]
+macro_rules! width_list {
+    () => {
+        dispatch_widths!(dispatch, call, Op;
+            0, 1, 2, 3, 4, 5, 6, 7, 8, 9, 10, 11, 12, 13, 14, 15, 16, 17, 24, 25, 31, 32, 33, 53, 54,
     60, 63, 64, 65, 66, 120, 121, 127, 128, 129, 191, 192, 193, 250, 255, 256, 257, 320, 384, 511, 512, 513,
     1023, 1024, 1025, 1100, 2048);
-
-fn u(v: &BigUint, bits: usize) -> V {
-    V::U(to_limbs(v, bits))
+    };
 }
-fn vu(l: &Limbs) -> V {
-    V::U(l.clone())
-}
-fn maxv(bits: usize) -> V {
-    V::U(max_limbs(bits))
-}
-fn err_tl(bits: usize, payload: V) -> V {
-    V::err(V::T(vec![V::s("ValueTooLarge"), V::n(bits), payload]))
-}
-fn err_neg(bits: usize, payload: V) -> V {
-    V::err(V::T(vec![V::s("ValueNegative"), V::n(bits), payload]))
-}
-
-/// floor(f + 1/2) for finite f >= 0, exactly, from the IEEE fields.
-fn exact_round_half_up(f: f64) -> BigUint {
-    let bits = f.to_bits();
-    let e = ((bits >> 52) & 0x7ff) as i64;
-    let frac = bits & ((1u64 << 52) - 1);
-    let (mant, exp) = if e == 0 { (frac, -1074i64) } else { (frac | (1u64 << 52), e - 1075) };
-    if exp >= 0 {
-        BigUint::from(mant) << (exp as usize)
-    } else {
-        let sh = (-exp) as usize;
-        if sh > 200 {
-            return BigUint::zero();
-        }
-        let num = (BigUint::from(mant) << 1usize) + (BigUint::one() << sh);
-        num >> (sh + 1)
-    }
-}
-
-/// exact integer value of a finite non-negative integral float
-fn float_int(f: f64) -> Option<BigUint> {
-    if !f.is_finite() || f < 0.0 || f.fract() != 0.0 {
-        return None;
-    }
-    Some(exact_round_half_up(f))
-}
-
-/// Acceptable results of Uint -> float: (lo, hi) neighbours as exact integers, None = +infinity allowed.
-fn float_neighbours(v: &BigUint, mbits: u64, emax: u64) -> (BigUint, Option<BigUint>, bool) {
-    // returns (lo, hi (None if 2^emax), inf_allowed)
-    let bl = v.bits();
-    if bl > emax {
-        // v >= 2^emax: only +infinity
-        return (v.clone(), None, true);
-    }
-    if bl <= mbits {
-        return (v.clone(), Some(v.clone()), false);
-    }
-    let sh = (bl - mbits) as usize;
-    let lo = (v >> sh) << sh;
-    let hi = if &lo == v { lo.clone() } else { &lo + (BigUint::one() << sh) };
-    if hi.bits() > emax {
-        // hi would be 2^emax: +infinity only if v >= halfway point between max finite and 2^emax
-        let half = &lo + (BigUint::one() << (sh - 1));
-        (lo, None, v >= &half)
-    } else {
-        (lo, Some(hi), false)
-    }
-}
-
-fn model(bits: usize, op: Op, args: &[V]) -> Expect {
-    use Op::*;
-    let m = pow2(bits);
-    match op {
-        try_from_u | from_u | wrapping_from_u | saturating_from_u | uint_try_from_u => {
-            let v = BigUint::from(args[1].as_n());
-            let fits = v < m;
-            let w = &v % &m;
-            match op {
-                try_from_u | uint_try_from_u => is(if fits { V::ok(u(&v, bits)) } else { err_tl(bits, u(&w, bits)) }),
-                from_u => is(if fits { u(&v, bits) } else { V::Panic }),
-                wrapping_from_u => is(u(&w, bits)),
-                _ => is(if fits { u(&v, bits) } else { maxv(bits) }),
-            }
-            .nt(!fits || v.bits() > 64)
-        }
-        try_from_i | from_i | wrapping_from_i | saturating_from_i => {
-            let t = args[0].as_n() as usize;
-            let v = args[1].as_i();
-            let src_bits = IT[t].1 as usize;
-            if v < 0 {
-                // payload specified only when BITS <= source width
-                let specified = bits <= src_bits;
-                let w = ((BigUint::one() << 256usize) - BigUint::from(v.unsigned_abs())) % &m;
-                return match op {
-                    try_from_i => {
-                        if specified {
-                            is(err_neg(bits, u(&w, bits)))
-                        } else {
-                            pred("Err(ValueNegative(BITS, _))", move |g| matches!(g, V::Err(e) if matches!(&**e, V::T(t) if t.len() == 3 && t[0] == V::s("ValueNegative") && t[1] == V::n(bits))))
-                        }
-                    }
-                    from_i => is(V::Panic),
-                    wrapping_from_i => {
-                        if specified {
-                            is(u(&w, bits))
-                        } else {
-                            pred("any value (unspecified), no panic", |g| matches!(g, V::U(_)))
-                        }
-                    }
-                    _ => is(u(&BigUint::zero(), bits)),
-                }
-                .nt(true);
-            }
-            let v = BigUint::from(v as u128);
-            let fits = v < m;
-            let w = &v % &m;
-            match op {
-                try_from_i => is(if fits { V::ok(u(&v, bits)) } else { err_tl(bits, u(&w, bits)) }),
-                from_i => is(if fits { u(&v, bits) } else { V::Panic }),
-                wrapping_from_i => is(u(&w, bits)),
-                _ => is(if fits { u(&v, bits) } else { maxv(bits) }),
-            }
-            .nt(!fits)
-        }
-        try_to_u | try_to_u_ref | to_u | wrapping_to_u | saturating_to_u | uint_try_to_u => {
-            let a = big(args[0].limbs());
-            let t = args[1].as_n() as usize;
-            let tb = UT[t].1 as u64;
-            let fits = a.bits() <= tb;
-            let low = &a % pow2(tb as usize);
-            let low128: u128 = low.iter_u64_digits().enumerate().map(|(i, d)| (d as u128) << (64 * i)).sum();
-            let (wv, mv) = if t == 0 { (V::B(low128 != 0), V::B(true)) } else { (V::N(low128), V::N(if tb == 128 { u128::MAX } else { (1u128 << tb) - 1 })) };
-            match op {
-                try_to_u | try_to_u_ref | uint_try_to_u => {
-                    is(if fits { V::ok(wv) } else { V::err(V::T(vec![V::s("Overflow"), V::n(bits), wv, mv])) })
-                }
-                to_u => is(if fits { wv } else { V::Panic }),
-                wrapping_to_u => is(wv),
-                _ => is(if fits { wv } else { mv }),
-            }
-            .nt(!fits)
-        }
-        try_to_i | try_to_i_ref | to_i | wrapping_to_i | saturating_to_i => {
-            let a = big(args[0].limbs());
-            let t = args[1].as_n() as usize;
-            let tb = IT[t].1 as u64;
-            let fits = a.bits() <= tb - 1;
-            let low = &a % pow2(tb as usize);
-            let low128: u128 = low.iter_u64_digits().enumerate().map(|(i, d)| (d as u128) << (64 * i)).sum();
-            // two's complement reinterpretation at tb bits
-            let wrapped: i128 = if tb == 128 {
-                low128 as i128
-            } else if low128 >> (tb - 1) & 1 == 1 {
-                (low128 as i128) - (1i128 << tb)
-            } else {
-                low128 as i128
-            };
-            let mx: i128 = if tb == 128 { i128::MAX } else { (1i128 << (tb - 1)) - 1 };
-            match op {
-                try_to_i | try_to_i_ref => is(if fits { V::ok(V::I(wrapped)) } else { V::err(V::T(vec![V::s("Overflow"), V::n(bits), V::I(wrapped), V::I(mx)])) }),
-                to_i => is(if fits { V::I(wrapped) } else { V::Panic }),
-                wrapping_to_i => is(V::I(wrapped)),
-                _ => is(if fits { V::I(wrapped) } else { V::I(mx) }),
-            }
-            .nt(!fits)
-        }
-        from_limbs => {
-            let s = args[0].limbs();
-            let ok = s.last().map_or(true, |t| t & !mask(bits) == 0);
-            is(if ok { V::U(s.to_vec()) } else { V::Panic }).nt(!ok)
-        }
-        from_limbs_slice | checked_from_limbs_slice | wrapping_from_limbs_slice | overflowing_from_limbs_slice | saturating_from_limbs_slice => {
-            let v = big(args[0].limbs());
-            let fits = v < m;
-            let w = &v % &m;
-            match op {
-                from_limbs_slice => is(if fits { u(&v, bits) } else { V::Panic }),
-                checked_from_limbs_slice => is(if fits { V::some(u(&v, bits)) } else { V::None }),
-                wrapping_from_limbs_slice => is(u(&w, bits)),
-                overflowing_from_limbs_slice => is(V::T(vec![u(&w, bits), V::B(!fits)])),
-                _ => is(if fits { u(&v, bits) } else { maxv(bits) }),
-            }
-            .nt(!fits || args[0].limbs().len() != nlimbs(bits))
-        }
-        as_le_slice | as_le_bytes | to_le_bytes | to_le_bytes_vec | to_be_bytes | to_be_bytes_vec | as_le_bytes_trimmed | to_le_bytes_trimmed_vec | to_be_bytes_trimmed_vec => {
-            let a = big(args[0].limbs());
-            let nb = (bits + 7) / 8;
-            let mut le = if a.is_zero() { vec![] } else { a.to_bytes_le() };
-            let trimmed = le.clone();
-            le.resize(nb, 0);
-            let e = match op {
-                as_le_slice | as_le_bytes | to_le_bytes | to_le_bytes_vec => le,
-                to_be_bytes | to_be_bytes_vec => le.into_iter().rev().collect(),
-                as_le_bytes_trimmed | to_le_bytes_trimmed_vec => trimmed,
-                _ => trimmed.into_iter().rev().collect(),
-            };
-            is(V::Bytes(e)).nt(true)
-        }
-        copy_le_bytes_to | copy_be_bytes_to | checked_copy_le_bytes_to | checked_copy_be_bytes_to => {
-            let a = big(args[0].limbs());
-            let n = args[1].as_n() as usize;
-            let nb = (bits + 7) / 8;
-            let mut le = if a.is_zero() { vec![] } else { a.to_bytes_le() };
-            le.resize(nb, 0);
-            let be: Vec<u8> = le.iter().rev().copied().collect();
-            let checked = matches!(op, checked_copy_le_bytes_to | checked_copy_be_bytes_to);
-            if n < nb {
-                return if checked { is(V::T(vec![V::None, V::Bytes(vec![0xa5; n])])) } else { is(V::Panic) }.nt(true);
-            }
-            let mut buf = vec![0xa5u8; n];
-            buf[..nb].copy_from_slice(if matches!(op, copy_le_bytes_to | checked_copy_le_bytes_to) { &le } else { &be });
-            is(V::T(vec![if checked { V::some(V::n(nb)) } else { V::n(nb) }, V::Bytes(buf)])).nt(n > nb)
-        }
-        from_be_bytes | from_le_bytes | from_be_slice | from_le_slice | try_from_be_slice | try_from_le_slice => {
-            let s = args[0].as_bytes();
-            let nb = (bits + 7) / 8;
-            let v = if matches!(op, from_be_bytes | from_be_slice | try_from_be_slice) { BigUint::from_bytes_be(s) } else { BigUint::from_bytes_le(s) };
-            let ok = s.len() <= nb && v < m;
-            let tr = matches!(op, try_from_be_slice | try_from_le_slice);
-            is(if ok { if tr { V::some(u(&v, bits)) } else { u(&v, bits) } } else if tr { V::None } else { V::Panic }).nt(!ok || s.len() != nb)
-        }
-        f64_from | f64_from_ref | f32_from | f32_from_ref => {
-            let v = big(args[0].limbs());
-            let is64 = matches!(op, f64_from | f64_from_ref);
-            let (mb, emax) = if is64 { (53, 1024) } else { (24, 128) };
-            let (lo, hi, inf_ok) = float_neighbours(&v, mb, emax);
-            let nt = v.bits() > mb;
-            pred(&format!("one of the two representable neighbours of the exact value (lo={lo}, hi={hi:?}, +inf allowed={inf_ok})"), move |g| {
-                let f = match g {
-                    V::F(b) => f64::from_bits(*b),
-                    V::F32(b) => f32::from_bits(*b) as f64,
-                    _ => return false,
-                };
-                if f.is_nan() || f < 0.0 {
-                    return false;
-                }
-                if f.is_infinite() {
-                    return inf_ok;
-                }
-                if v.bits() > emax {
-                    return false;
-                }
-                match float_int(f) {
-                    Some(x) => x == lo || Some(&x) == hi.as_ref(),
-                    None => false,
-                }
-            })
-            .nt(nt)
-        }
-        try_from_f64 | from_f64 | wrapping_from_f64 | saturating_from_f64 | try_from_f32 | from_f32 | wrapping_from_f32 | saturating_from_f32 => {
-            let f = match &args[0] {
-                V::F(b) => f64::from_bits(*b),
-                V::F32(b) => f32::from_bits(*b) as f64,
-                _ => panic!("harness: float expected"),
-            };
-            // classification
-            #[derive(PartialEq)]
-            enum C {
-                Nan,
-                Neg,
-                Big,
-                Ok(BigUint),
-            }
-            let c = if f.is_nan() {
-                C::Nan
-            } else if f < 0.0 {
-                C::Neg
-            } else if f.is_infinite() {
-                C::Big
-            } else {
-                let r = exact_round_half_up(f);
-                if r < m { C::Ok(r) } else { C::Big }
-            };
-            let nt = !matches!(c, C::Ok(_)) || f >= 4503599627370496.0 || f.fract() != 0.0;
-            let tag = |name: &'static str| {
-                pred(&format!("Err({name}(BITS, <payload unspecified>))"), move |g| {
-                    matches!(g, V::Err(e) if matches!(&**e, V::T(t) if t.len() >= 2 && t[0] == V::s(name) && t[1] == V::n(bits)))
-                })
-            };
-            match op {
-                try_from_f64 | try_from_f32 => match c {
-                    C::Nan => is(V::err(V::T(vec![V::s("NotANumber"), V::n(bits)]))),
-                    C::Neg => tag("ValueNegative"),
-                    C::Big => tag("ValueTooLarge"),
-                    C::Ok(r) => is(V::ok(u(&r, bits))),
-                },
-                from_f64 | from_f32 => match c {
-                    C::Ok(r) => is(u(&r, bits)),
-                    _ => is(V::Panic),
-                },
-                wrapping_from_f64 | wrapping_from_f32 => match c {
-                    C::Ok(r) => is(u(&r, bits)),
-                    _ => pred("any value (wrapping of out-of-range floats is unspecified), no panic", |g| matches!(g, V::U(_))),
-                },
-                _ => match c {
-                    C::Ok(r) => is(u(&r, bits)),
-                    C::Big => is(maxv(bits)),
-                    _ => is(u(&BigUint::zero(), bits)),
-                },
-            }
-            .nt(nt)
-        }
-    }
-}
-
-group_glue!();
-
-// ---------------------------------------------------------------- C07
-
-fn uval_alphabet() -> Vec<u128> {
-    let mut v = vec![0u128, u128::MAX];
-    for k in 0..128u32 {
-        for d in [-1i128, 0, 1] {
-            v.push((1u128 << k).wrapping_add(d as u128));
-        }
-    }
-    for x in [0x7fu128, 0x80, 0xff, 0x100, 0x7fff, 0x8000, 0xffff, 0x10000] {
-        v.push(x);
-    }
-    // values with both limbs populated (for the two-limb u128 path)
-    for hi in [1u128, 3, 7, 0x7fff_ffff_ffff_ffff, 0x8000_0000_0000_0000, u64::MAX as u128] {
-        for lo in [0u128, 5, u64::MAX as u128] {
-            v.push((hi << 64) | lo);
-        }
-    }
-    v.sort();
-    v.dedup();
-    v
-}
-fn ival_alphabet() -> Vec<i128> {
-    let mut v = vec![0i128, i128::MAX, i128::MIN];
-    for k in 0..127u32 {
-        for d in [-1i128, 0, 1] {
-            let p = (1i128 << k).wrapping_add(d);
-            v.push(p);
-            v.push(p.wrapping_neg());
-        }
-    }
-    v.sort();
-    v.dedup();
-    v
-}
-
-const C07_WIDTHS: &[usize] = &[0, 1, 2, 3, 4, 5, 6, 7, 8, 9, 10, 11, 12, 13, 14, 15, 16, 17, 31, 32, 33, 63, 64, 65, 66, 127, 128, 129, 192, 256];
-const FROM_U: &[Op] = &[Op::try_from_u, Op::from_u, Op::wrapping_from_u, Op::saturating_from_u, Op::uint_try_from_u];
-const FROM_I: &[Op] = &[Op::try_from_i, Op::from_i, Op::wrapping_from_i, Op::saturating_from_i];
-const TO_U: &[Op] = &[Op::try_to_u, Op::try_to_u_ref, Op::to_u, Op::wrapping_to_u, Op::saturating_to_u, Op::uint_try_to_u];
-const TO_I: &[Op] = &[Op::try_to_i, Op::try_to_i_ref, Op::to_i, Op::wrapping_to_i, Op::saturating_to_i];
-const SLICE_OPS: &[Op] = &[Op::from_limbs_slice, Op::checked_from_limbs_slice, Op::wrapping_from_limbs_slice, Op::overflowing_from_limbs_slice, Op::saturating_from_limbs_slice];
-
-fn c07(r: &Runner) {
-    r.set_rule("into Uint: ALL values of bool/u8/i8/u16/i16; for 32/64/128-bit types every +-(2^k + d), d in {-1,0,1}, MIN/MAX and two-limb patterns (thorough: all 2^32 values of u32/i32 at widths 7, 31, 32, 33); limb slices of every length 0..LIMBS+2 over the alphabet; from Uint: every value of S(B), B <= 12, and of L/R/P(B); Uint->Uint over a 10x10 (src,dst) width grid. non-trivial = the conversion does not fit (error / wrap / saturate) or crosses a limb");
-    let ua = uval_alphabet();
-    let ia = ival_alphabet();
-    for &bits in C07_WIDTHS {
-        // unsigned sources
-        let mut cases: Vec<[V; 2]> = vec![];
-        for (t, (_, tb)) in UT.iter().enumerate() {
-            let vals: Vec<u128> = match *tb {
-                1 => vec![0, 1],
-                8 => (0..=255u128).collect(),
-                16 => (0..=65535u128).collect(),
-                tb => ua.iter().copied().filter(|x| tb == 128 || *x < (1u128 << tb)).collect(),
-            };
-            for v in vals {
-                cases.push([V::n(t), V::N(v)]);
-            }
-        }
-        r.universe(&format!("unsigned primitives -> U{bits} ({} values)", cases.len()), bits, cases.len(), |i, l| {
-            l.states(1);
-            for &op in FROM_U {
-                exec(l, bits, op, &cases[i]);
-            }
-        });
-        let mut cases: Vec<[V; 2]> = vec![];
-        for (t, (_, tb)) in IT.iter().enumerate() {
-            let vals: Vec<i128> = match *tb {
-                8 => (-128..=127i128).collect(),
-                16 => (-32768..=32767i128).collect(),
-                tb => ia.iter().copied().filter(|x| tb == 128 || (*x >= -(1i128 << (tb - 1)) && *x < (1i128 << (tb - 1)))).collect(),
-            };
-            for v in vals {
-                cases.push([V::n(t), V::I(v)]);
-            }
-        }
-        r.universe(&format!("signed primitives -> U{bits} ({} values)", cases.len()), bits, cases.len(), |i, l| {
-            l.states(1);
-            for &op in FROM_I {
-                exec(l, bits, op, &cases[i]);
-            }
-        });
-        // Uint -> primitives
-        let (vals, d) = pick(bits, 6000, &salt(r.seed));
-        r.universe(&format!("{d} -> 13 primitive types"), bits, vals.len(), |i, l| {
-            let a = vu(&vals[i]);
-            l.states(1);
-            for t in 0..UT.len() {
-                let args = [a.clone(), V::n(t)];
-                for &op in TO_U {
-                    exec(l, bits, op, &args);
-                }
-            }
-            for t in 0..IT.len() {
-                let args = [a.clone(), V::n(t)];
-                for &op in TO_I {
-                    exec(l, bits, op, &args);
-                }
-            }
-        });
-        // limb slices: every length 0..LIMBS+2 over the alphabet (product capped by shrinking the alphabet)
-        let nl = nlimbs(bits);
-        let mut slices: Vec<Limbs> = vec![];
-        for len in 0..=nl + 2 {
-            let al: &[u64] = if len <= 3 { A8 } else if len <= 5 { A5 } else { A3 };
-            let mut cur: Vec<Limbs> = vec![vec![]];
-            for _ in 0..len {
-                let mut nx = vec![];
-                for v in &cur {
-                    for &a in al {
-                        let mut w = v.clone();
-                        w.push(a);
-                        nx.push(w);
-                    }
-                }
-                cur = nx;
-            }
-            // also top limb = mask, mask+1 where the slice has exactly LIMBS limbs
-            if len == nl && nl > 0 {
-                let mk = mask(bits);
-                for x in [mk, mk.wrapping_add(1), mk >> 1, mk.wrapping_sub(1)] {
-                    let mut w = vec![u64::MAX; nl];
-                    w[nl - 1] = x;
-                    cur.push(w.clone());
-                    w[0] = 0;
-                    cur.push(w);
-                }
-            }
-            slices.extend(cur);
-        }
-        slices.sort();
-        slices.dedup();
-        r.universe(&format!("limb slices of length 0..={} ({} slices)", nl + 2, slices.len()), bits, slices.len(), |i, l| {
-            let args = [V::U(slices[i].clone())];
-            l.states(1);
-            for &op in SLICE_OPS {
-                exec(l, bits, op, &args);
-            }
-            if slices[i].len() == nl {
-                exec(l, bits, Op::from_limbs, &args);
-            }
-        });
-    }
-    if r.is_thorough() {
-        for bits in [7usize, 31, 32, 33] {
-            r.universe(&format!("ALL 2^32 u32 and i32 values -> U{bits}"), bits, 1 << 16, |i, l| {
-                for lo in 0..(1u128 << 16) {
-                    let v = ((i as u128) << 16) | lo;
-                    l.states(2);
-                    exec(l, bits, Op::try_from_u, &[V::n(3), V::N(v)]);
-                    exec(l, bits, Op::wrapping_from_u, &[V::n(3), V::N(v)]);
-                    exec(l, bits, Op::try_from_i, &[V::n(2), V::I(v as u32 as i32 as i128)]);
-                    exec(l, bits, Op::wrapping_from_i, &[V::n(2), V::I(v as u32 as i32 as i128)]);
-                }
-            });
-        }
-    }
-    uu_grid(r);
-}
-
-fn uu<const B1: usize, const L1: usize, const B2: usize, const L2: usize>(r: &Runner) {
-    // source Uint<B1> -> destination Uint<B2>
-    let (vals, d) = pick(B1, 3000, &[]);
-    let m2 = pow2(B2);
-    r.universe(&format!("U{B1} ({d}) -> U{B2}"), B1, vals.len(), |i, l| {
-        let args = [vu(&vals[i])];
-        let v = big(&vals[i]);
-        let fits = v < m2;
-        let w = &v % &m2;
-        l.states(1);
-        macro_rules! one {
-            ($name:literal, $e:expr, $exp:expr) => {{
-                let got = l.guard($name, $name, B2, &args, || {
-                    let a: Uint<B1, L1> = FromV::<B1, L1>::from_v(&args[0]);
-                    let _ = &a;
-                    IntoV::into_v($e(a))
-                });
-                l.record($name, $name, B2, &args, got, is($exp).nt(!fits || L1 != L2));
-            }};
-        }
-        one!("uint_try_from(Uint<B1>) -> Uint<B2>", |a: Uint<B1, L1>| <Uint<B2, L2> as UintTryFrom<Uint<B1, L1>>>::uint_try_from(a), if fits { V::ok(u(&v, B2)) } else { err_tl(B2, u(&w, B2)) });
-        one!("Uint<B2>::from(Uint<B1>)", |a: Uint<B1, L1>| Uint::<B2, L2>::from(a), if fits { u(&v, B2) } else { V::Panic });
-        one!("Uint<B2>::wrapping_from(Uint<B1>)", |a: Uint<B1, L1>| Uint::<B2, L2>::wrapping_from(a), u(&w, B2));
-        one!("Uint<B2>::saturating_from(Uint<B1>)", |a: Uint<B1, L1>| Uint::<B2, L2>::saturating_from(a), if fits { u(&v, B2) } else { maxv(B2) });
-        one!("Uint<B1>::uint_try_to::<Uint<B2>>", |a: Uint<B1, L1>| <Uint<B1, L1> as UintTryTo<Uint<B2, L2>>>::uint_try_to(&a),
-            if fits { V::ok(u(&v, B2)) } else { V::err(V::T(vec![V::s("Overflow"), V::n(B2), u(&w, B2), maxv(B2)])) });
-        one!("Uint<B1>::to::<Uint<B2>>", |a: Uint<B1, L1>| a.to::<Uint<B2, L2>>(), if fits { u(&v, B2) } else { V::Panic });
-        one!("Uint<B1>::wrapping_to::<Uint<B2>>", |a: Uint<B1, L1>| a.wrapping_to::<Uint<B2, L2>>(), u(&w, B2));
-        one!("Uint<B1>::saturating_to::<Uint<B2>>", |a: Uint<B1, L1>| a.saturating_to::<Uint<B2, L2>>(), if fits { u(&v, B2) } else { maxv(B2) });
-    });
-}
-macro_rules! uu_row {
-    ($r:expr; $a:literal; $($b:literal),*) => {$( uu::<$a, {($a + 63) / 64}, $b, {($b + 63) / 64}>($r); )*};
-}
-fn uu_grid(r: &Runner) {
-    uu_row!(r; 0; 0, 1, 8, 63, 64, 65, 128, 129, 256, 320);
-    uu_row!(r; 1; 0, 1, 8, 63, 64, 65, 128, 129, 256, 320);
-    uu_row!(r; 8; 0, 1, 8, 63, 64, 65, 128, 129, 256, 320);
-    uu_row!(r; 63; 0, 1, 8, 63, 64, 65, 128, 129, 256, 320);
-    uu_row!(r; 64; 0, 1, 8, 63, 64, 65, 128, 129, 256, 320);
-    uu_row!(r; 65; 0, 1, 8, 63, 64, 65, 128, 129, 256, 320);
-    uu_row!(r; 128; 0, 1, 8, 63, 64, 65, 128, 129, 256, 320);
-    uu_row!(r; 129; 0, 1, 8, 63, 64, 65, 128, 129, 256, 320);
-    uu_row!(r; 256; 0, 1, 8, 63, 64, 65, 128, 129, 256, 320);
-    uu_row!(r; 320; 0, 1, 8, 63, 64, 65, 128, 129, 256, 320);
-}
-
-// ---------------------------------------------------------------- C08
-
-const C08_WIDTHS_Q: &[usize] = &[0, 1, 2, 3, 4, 5, 6, 7, 8, 9, 10, 11, 12, 13, 14, 15, 16, 17, 24, 25, 60, 63, 64, 65, 120, 121, 127, 128, 129, 192, 250, 256, 257];
-const C08_WIDTHS_T: &[usize] = &[0, 1, 2, 3, 4, 5, 6, 7, 8, 9, 10, 11, 12, 13, 14, 15, 16, 17, 24, 25, 31, 32, 33, 60, 63, 64, 65, 66, 120, 121, 127, 128, 129, 191, 192, 193, 250, 255, 256, 257, 320, 384, 511, 512, 513, 1024];
-const ENC: &[Op] = &[
-    Op::as_le_slice, Op::as_le_bytes, Op::as_le_bytes_trimmed, Op::to_le_bytes, Op::to_be_bytes, Op::to_le_bytes_vec, Op::to_be_bytes_vec,
-    Op::to_le_bytes_trimmed_vec, Op::to_be_bytes_trimmed_vec,
-];
-const COPY: &[Op] = &[Op::copy_le_bytes_to, Op::copy_be_bytes_to, Op::checked_copy_le_bytes_to, Op::checked_copy_be_bytes_to];
-const DEC: &[Op] = &[Op::from_be_slice, Op::from_le_slice, Op::try_from_be_slice, Op::try_from_le_slice];
-
-fn c08(r: &Runner) {
-    r.set_rule("encoders on every value of S(B), B <= 16, and of L/R/P(B); copy forms into buffers of every length 0..BYTES+2 pre-filled with a sentinel; decoders on ALL byte strings of length 0..2 (3 thorough) for widths <= 25 bits and on all run-shaped strings x^i.y.z^j over {00,01,7f,80,ff} for every length 0..BYTES+8 (contains the full-length strings with excess high bits for every mask), plus round trips of every encoded value. non-trivial: every encoding; decodes that are rejected or not full length");
-    let ws = if r.is_thorough() { C08_WIDTHS_T } else { C08_WIDTHS_Q };
-    let al = [0x00u8, 0x01, 0x7f, 0x80, 0xff];
-    for &bits in ws {
-        let nb = (bits + 7) / 8;
-        let (vals, d) = pick(bits, if r.is_thorough() { 70_000 } else { if bits <= 16 { 70_000 } else { 3000 } }, &salt(r.seed));
-        r.universe(&format!("{d} encode + round trip"), bits, vals.len(), |i, l| {
-            let a = vu(&vals[i]);
-            l.states(1);
-            for &op in ENC {
-                exec(l, bits, op, &[a.clone()]);
-            }
-            // round trips through the fixed-size decoders
-            let v = big(&vals[i]);
-            let mut le = if v.is_zero() { vec![] } else { v.to_bytes_le() };
-            le.resize(nb, 0);
-            let be: Vec<u8> = le.iter().rev().copied().collect();
-            exec(l, bits, Op::from_le_bytes, &[V::Bytes(le.clone())]);
-            exec(l, bits, Op::from_be_bytes, &[V::Bytes(be.clone())]);
-            for &op in DEC {
-                let s = if matches!(op, Op::from_be_slice | Op::try_from_be_slice) { &be } else { &le };
-                exec(l, bits, op, &[V::Bytes(s.clone())]);
-            }
-        });
-        let (cv, cd) = pick(bits, 600, &[]);
-        r.universe(&format!("{cd} x buffer length 0..={}", nb + 2), bits, cv.len(), |i, l| {
-            let a = vu(&cv[i]);
-            for n in 0..=nb + 2 {
-                l.states(1);
-                for &op in COPY {
-                    exec(l, bits, op, &[a.clone(), V::n(n)]);
-                }
-            }
-        });
-        // run-shaped byte strings
-        let mut strs: Vec<Vec<u8>> = vec![vec![]];
-        for n in 1..=nb + 8 {
-            for i in 0..n {
-                for &x in &al {
-                    for &y in &al {
-                        for &z in &al {
-                            let mut s = vec![x; n];
-                            s[i] = y;
-                            for b in s.iter_mut().skip(i + 1) {
-                                *b = z;
-                            }
-                            strs.push(s);
-                        }
-                    }
-                }
-            }
-            if strs.len() > 400_000 {
-                break;
-            }
-        }
-        // exact boundary strings: 2^bits - 1, 2^bits, 2^bits + 1 in both byte orders at lengths nb, nb+1
-        let mp = pow2(bits);
-        for v in [&mp - 1u32, mp.clone(), &mp + 1u32, &mp >> 1, (&mp >> 1) + 1u32] {
-            let mut le = if v.is_zero() { vec![] } else { v.to_bytes_le() };
-            for len in [nb, nb + 1, le.len()] {
-                if le.len() <= len {
-                    le.resize(len, 0);
-                    strs.push(le.clone());
-                    strs.push(le.iter().rev().copied().collect());
-                }
-            }
-        }
-        strs.sort();
-        strs.dedup();
-        r.universe(&format!("run-shaped byte strings of length 0..={} ({} strings)", nb + 8, strs.len()), bits, strs.len(), |i, l| {
-            let args = [V::Bytes(strs[i].clone())];
-            l.states(1);
-            for &op in DEC {
-                exec(l, bits, op, &args);
-            }
-            if strs[i].len() == nb {
-                exec(l, bits, Op::from_le_bytes, &args);
-                exec(l, bits, Op::from_be_bytes, &args);
-            }
-        });
-        if bits <= 25 {
-            let maxlen = if r.is_thorough() { 3 } else { 2 };
-            let total: usize = (0..=maxlen).map(|k| 1usize << (8 * k)).sum();
-            r.universe(&format!("ALL byte strings of length 0..={maxlen}"), bits, total, |i, l| {
-                // index -> string
-                let mut k = 0;
-                let mut idx = i;
-                while idx >= (1usize << (8 * k)) {
-                    idx -= 1usize << (8 * k);
-                    k += 1;
-                }
-                let s: Vec<u8> = (0..k).map(|j| (idx >> (8 * j)) as u8).collect();
-                let args = [V::Bytes(s)];
-                l.states(1);
-                for &op in DEC {
-                    exec(l, bits, op, &args);
-                }
-            });
-        }
-    }
-}
-
-// ---------------------------------------------------------------- C18
-
-const C18_WIDTHS_Q: &[usize] = &[0, 1, 8, 24, 25, 53, 54, 63, 64, 65, 127, 128, 129, 256, 1023, 1024, 1025, 2048];
-const C18_WIDTHS_T: &[usize] = &[0, 1, 2, 7, 8, 16, 24, 25, 32, 53, 54, 63, 64, 65, 127, 128, 129, 192, 256, 512, 1023, 1024, 1025, 1100, 2048];
-const FROM_F64: &[Op] = &[Op::try_from_f64, Op::from_f64, Op::wrapping_from_f64, Op::saturating_from_f64];
-const FROM_F32: &[Op] = &[Op::try_from_f32, Op::from_f32, Op::wrapping_from_f32, Op::saturating_from_f32];
-
-fn f64_patterns(bits: usize) -> Vec<u64> {
-    let mut mants: Vec<u64> = vec![0, 1, 2, 3, 1 << 51, (1 << 51) + 1, (1 << 51) - 1, (1 << 52) - 1, (1 << 52) - 2, 0x000a_aaaa_aaaa_aaaa, 0x0005_5555_5555_5555];
-    for k in 0..52 {
-        mants.push(1 << k);
-        mants.push((1u64 << 52) - (1 << k));
-        mants.push((1u64 << k).wrapping_sub(1) & ((1 << 52) - 1));
-    }
-    mants.sort();
-    mants.dedup();
-    let mut pats: Vec<u64> = vec![];
-    for sign in [0u64, 1] {
-        for e in 0..2048u64 {
-            for &mt in &mants {
-                pats.push((sign << 63) | (e << 52) | mt);
-            }
-        }
-    }
-    // integers 2^52 + k and halves k + 0.5 for k in P(52)
-    for j in 0..=52u32 {
-        for d in [-2i64, -1, 0, 1, 2] {
-            let k = ((1i64 << j) + d).max(0) as u64;
-            if k < (1 << 52) {
-                pats.push((((1u64 << 52) + k) as f64).to_bits());
-                pats.push((k as f64 + 0.5).to_bits());
-                pats.push((((1u64 << 53) - 1 - k) as f64).to_bits());
-            }
-        }
-    }
-    if bits < 1023 {
-        let p = (bits as f64).exp2();
-        for f in [p, p - 0.5, p - 1.0, p + 1.0, f64::from_bits(p.to_bits() - 1), f64::from_bits(p.to_bits() + 1), p - 0.25, p / 2.0, p - 1.5] {
-            pats.push(f.to_bits());
-        }
-    }
-    pats.sort();
-    pats.dedup();
-    pats
-}
-
-fn c18(r: &Runner) {
-    r.set_rule("float -> Uint: sign x ALL 2048 exponents x ~160 mantissa patterns (one-bit, low-run, extremes), every integer 2^52+k and half k+0.5 for k in P(52), 2^BITS and its neighbours, subnormals, +-0, +-inf, NaNs (f64); f32: ALL 2^32 bit patterns at width 64 (thorough: 8 widths) and sign x all 256 exponents x 55 mantissas elsewhere. Uint -> float: P(B), R(B), 2^k*m for rounding-critical m and every k, monotonicity along the sorted universe. Oracle exact (integer arithmetic on the IEEE fields). non-trivial = rounding is involved (fraction or >53/24 significant bits) or the result is an error class");
-    let ws = if r.is_thorough() { C18_WIDTHS_T } else { C18_WIDTHS_Q };
-    for &bits in ws {
-        let pats = f64_patterns(bits);
-        r.universe(&format!("f64 patterns -> U{bits} ({} patterns)", pats.len()), bits, pats.len(), |i, l| {
-            let args = [V::F(pats[i])];
-            l.states(1);
-            for &op in FROM_F64 {
-                exec(l, bits, op, &args);
-            }
-        });
-        // f32 alphabet
-        let mut m32: Vec<u32> = vec![0, 1, 2, 3, 1 << 22, (1 << 22) + 1, (1 << 23) - 1, (1 << 23) - 2];
-        for k in 0..23 {
-            m32.push(1 << k);
-            m32.push((1u32 << 23) - (1 << k));
-        }
-        m32.sort();
-        m32.dedup();
-        let mut p32: Vec<u32> = vec![];
-        for sign in [0u32, 1] {
-            for e in 0..256u32 {
-                for &mt in &m32 {
-                    p32.push((sign << 31) | (e << 23) | mt);
-                }
-            }
-        }
-        r.universe(&format!("f32 patterns -> U{bits} ({} patterns)", p32.len()), bits, p32.len(), |i, l| {
-            let args = [V::F32(p32[i])];
-            l.states(1);
-            for &op in FROM_F32 {
-                exec(l, bits, op, &args);
-            }
-        });
-        // Uint -> float
-        let m = pow2(bits);
-        let mut vals: Vec<BigUint> = pick(bits, 4000, &[]).0.iter().map(|x| big(x)).collect();
-        for k in 0..=bits {
-            let p = pow2(k);
-            for mm in [
-                1u64, (1 << 53) - 1, 1 << 53, (1 << 53) + 1, (1 << 53) + 2, (1 << 53) + 3, (1 << 54) - 1, (1 << 54) + 1, (1 << 54) + 2, (1 << 54) + 3,
-                (1 << 24) - 1, (1 << 24) + 1, (1 << 25) + 1, (1 << 25) + 3, u64::MAX, u64::MAX - 1, (1u64 << 63) + (1 << 10), (1u64 << 63) + (1 << 10) + 1,
-                (1u64 << 63) + (1 << 10) - 1, (1u64 << 63) + (1 << 39), (1u64 << 63) + (1 << 39) + 1, (1u64 << 63) + (1 << 39) - 1,
-            ] {
-                for d in [-1i32, 0, 1] {
-                    let base = &p * mm;
-                    let v = if d < 0 {
-                        if base.is_zero() { continue } else { &base - 1u32 }
-                    } else {
-                        &base + d as u32
-                    };
-                    if v < m {
-                        vals.push(v);
-                    }
-                }
-            }
-        }
-        // rounding thresholds at the top of each float range: max finite, the midpoint T to 2^emax beyond which
-        // only +inf is right, and T +- 2^j for every j (double-rounding and overflow-threshold slips live here)
-        for (p, emax) in [(24usize, 128usize), (53, 1024)] {
-            if bits < emax - p {
-                continue;
-            }
-            let maxf = (pow2(p) - 1u32) << (emax - p);
-            let t = &maxf + pow2(emax - p - 1);
-            let mut push = |v: BigUint| {
-                if v < m {
-                    vals.push(v);
-                }
-            };
-            push(maxf.clone());
-            push(&maxf - 1u32);
-            push(&maxf + 1u32);
-            push(t.clone());
-            for j in 0..(emax - p) {
-                push(&t - pow2(j));
-                push(&t + pow2(j));
-                push(&t - pow2(j) - 1u32);
-            }
-            // the same at every lower binade top: (2^p - 1) * 2^k + half an ulp +- 1
-            for k in (1..emax - p).step_by(7) {
-                let hf = ((pow2(p) - 1u32) << k) + pow2(k - 1);
-                push(&hf - 1u32);
-                push(hf.clone());
-                push(&hf + 1u32);
-            }
-        }
-        vals.sort();
-        vals.dedup();
-        let lv: Vec<Limbs> = vals.iter().map(|v| to_limbs(v, bits)).collect();
-        r.universe(&format!("U{bits} -> f64/f32 ({} values)", lv.len()), bits, lv.len(), |i, l| {
-            let args = [vu(&lv[i])];
-            l.states(1);
-            for op in [Op::f64_from, Op::f64_from_ref, Op::f32_from, Op::f32_from_ref] {
-                exec(l, bits, op, &args);
-            }
-        });
-        // monotonicity along the sorted universe (sequential pass on real results)
-        r.universe_seq(&format!("U{bits} -> float monotone along {} sorted values", lv.len()), bits, |l| {
-            let mut prev: Option<(V, V)> = None;
-            let mut prev_args = V::Unit;
-            for x in &lv {
-                let args = [vu(x)];
-                let g64 = l.guard("f64_from", Op::f64_from.src(), bits, &args, || dispatch(bits, Op::f64_from, &args));
-                let g32 = l.guard("f32_from", Op::f32_from.src(), bits, &args, || dispatch(bits, Op::f32_from, &args));
-                if let Some((p64, p32)) = &prev {
-                    let pa = [prev_args.clone(), args[0].clone()];
-                    let ok64 = matches!((p64, &g64), (V::F(a), V::F(b)) if f64::from_bits(*a) <= f64::from_bits(*b));
-                    let ok32 = matches!((p32, &g32), (V::F32(a), V::F32(b)) if f32::from_bits(*a) <= f32::from_bits(*b));
-                    l.record("f64_from monotone", "|a: U, b: U| (f64::from(a), f64::from(b)) /* a < b */", bits, &pa, V::T(vec![p64.clone(), g64.clone()]), pred("f64::from(a) <= f64::from(b) for a < b", move |_| ok64));
-                    l.record("f32_from monotone", "|a: U, b: U| (f32::from(a), f32::from(b)) /* a < b */", bits, &pa, V::T(vec![p32.clone(), g32.clone()]), pred("f32::from(a) <= f32::from(b) for a < b", move |_| ok32));
-                }
-                prev_args = args[0].clone();
-                prev = Some((g64, g32));
-                l.states(1);
-            }
-        });
-    }
-    // ALL 2^32 f32 bit patterns
-    let sweep_widths: &[usize] = if r.is_thorough() { &[0, 1, 8, 24, 25, 64, 128, 129] } else { &[64] };
-    for &bits in sweep_widths {
-        f32_sweep(r, bits);
-    }
-}
-
-/// One pattern of the sweep, called on the real code without going through `V` (tight loop).
-#[inline]
-fn sweep_cmp<const B: usize, const L: usize>(f: f32, exp: &Result<u128, u8>) -> bool {
-    use ruint::ToUintError as E;
-    match (Uint::<B, L>::try_from(f), exp) {
-        (Ok(x), Ok(v)) => {
-            let lm = x.as_limbs();
-            let g0 = lm.first().copied().unwrap_or(0) as u128 | ((lm.get(1).copied().unwrap_or(0) as u128) << 64);
-            g0 == *v && lm.iter().skip(2).all(|z| *z == 0) && (L == 0 || lm[L - 1] & !mask(B) == 0)
-        }
-        (Err(E::NotANumber(b)), Err(0)) => b == B,
-        (Err(E::ValueNegative(b, _)), Err(1)) => b == B,
-        (Err(E::ValueTooLarge(b, _)), Err(2)) => b == B,
-        _ => false,
-    }
-}
-fn sweep_one(bits: usize, f: f32, exp: &Result<u128, u8>) -> bool {
-    match bits {
-        0 => sweep_cmp::<0, 0>(f, exp),
-        1 => sweep_cmp::<1, 1>(f, exp),
-        8 => sweep_cmp::<8, 1>(f, exp),
-        24 => sweep_cmp::<24, 1>(f, exp),
-        25 => sweep_cmp::<25, 1>(f, exp),
-        64 => sweep_cmp::<64, 1>(f, exp),
-        128 => sweep_cmp::<128, 2>(f, exp),
-        129 => sweep_cmp::<129, 3>(f, exp),
-        _ => panic!("harness: sweep width not instantiated"),
-    }
-}
-
-/// All 2^32 f32 bit patterns, compared in a tight loop with a u128 oracle; mismatches are re-run through `exec`.
-fn f32_sweep(r: &Runner, bits: usize) {
-    r.universe(&format!("ALL 2^32 f32 bit patterns -> U{bits}"), bits, 1 << 12, |i, l| {
-        let mut n = 0u64;
-        let mut nt = 0u64;
-        for lo in 0..(1u32 << 20) {
-            let p = ((i as u32) << 20) | lo;
-            let f = f32::from_bits(p);
-            // u128 oracle: every finite f32 is < 2^128
-            let exp: Result<u128, u8> = if f.is_nan() {
-                Err(0)
-            } else if f < 0.0 {
-                Err(1)
-            } else if f.is_infinite() {
-                Err(2)
-            } else {
-                let b = p & 0x7fff_ffff;
-                let e = (b >> 23) as i32;
-                let frac = (b & 0x7f_ffff) as u128;
-                let (mant, ex) = if e == 0 { (frac, -149) } else { (frac | (1 << 23), e - 150) };
-                let v: u128 = if ex >= 0 { mant << ex } else if -ex > 40 { 0 } else { ((mant << 1) + (1u128 << (-ex))) >> (-ex + 1) };
-                if bits >= 128 || v < (1u128 << bits) { Ok(v) } else { Err(2) }
-            };
-            let good = sweep_one(bits, f, &exp);
-            n += 1;
-            if exp.is_err() || f.fract() != 0.0 {
-                nt += 1;
-            }
-            if !good {
-                // slow path: full model, recorded as a violation if it really disagrees
-                let args = [V::F32(p)];
-                for &op in FROM_F32 {
-                    exec(l, bits, op, &args);
-                }
-            }
-        }
-        l.states(n);
-        l.bulk("try_from_f32", n, nt, 0b0110_0000);
-    });
-}
-
-fn main() {
-    let (prop, tier, seed, replay_path) = args_env();
-    if let Some(p) = replay_path {
-        std::process::exit(replay(&p));
-    }
-    let r = Runner::new("mc_conv", &prop, &tier, seed);
-    r.assume("x86_64, 64-bit usize, harness profile = release + debug-assertions + overflow-checks");
-    r.assume("reference model: BigUint / exact integer arithmetic on IEEE-754 fields; no floating point in the oracle except std's exact u64->f64 casts of integers below 2^53 used to build inputs");
-    match prop.as_str() {
-        "C07" => c07(&r),
-        "C08" => c08(&r),
-        "C18" => c18(&r),
-        _ => {
-            eprintln!("mc_conv: unknown property '{prop}' (C07 C08 C18)");
-            std::process::exit(2);
-        }
-    }
-    std::process::exit(r.finish());
-}
+const SWEEP: bool = false;
+include!("../groups/conv.rs");
